@@ -1,10 +1,10 @@
 (* Property C19: lattice geometry - index maps are bijections and couplings are enumerated exactly.
-   Only statements; every proof is `exact <lemma from Proofs/LatticeP.v, LatticeP2.v, LatticeP3.v, LatticeP4.v or LatticeP5.v>`.
+   Only statements; every proof is `exact <lemma from Proofs/LatticeP.v, LatticeP2.v, LatticeP3.v ... LatticeP6.v>`.
    All theorems hold for every dimension (1 + length (Lr lat)), all sizes, every unit cell size and
    every order array that lists distinct sites of the box (regular lattices: all of them; irregular
    lattices: a subset), finite and infinite MPS boundary conditions. *)
 From TenpyV Require Import Base.Prelude Model.Lattice Model.LatticeVals Model.LatticeMulti Model.LatticeTransform.
-From TenpyV Require Import Proofs.LatticeP Proofs.LatticeP2 Proofs.LatticeP3 Proofs.LatticeP4 Proofs.LatticeP5 Proofs.LatticeTransformP.
+From TenpyV Require Import Proofs.LatticeP Proofs.LatticeP2 Proofs.LatticeP3 Proofs.LatticeP4 Proofs.LatticeP5 Proofs.LatticeP6 Proofs.LatticeTransformP.
 Open Scope Z_scope.
 
 (* get_order with priority=None (C-style and every combination of snake flags) enumerates every lattice
@@ -135,6 +135,20 @@ Theorem T19_two_operator_multi_coupling : forall lat, wf lat -> forall u1 u2 dx0
   (forall i j, multi_coupled lat ops [i; j] <-> coupled lat u1 u2 dx0 dxr i j) /\
   (forall i j, In [i; j] (multi_ijkl lat ops) <-> In (i, j) (coupling_pairs lat u1 u2 dx0 dxr)).
 Proof. exact two_operator_multi_coupling. Qed.
+
+(* The multi-couplings do not depend on the order in which the operators are listed: listing the operators in
+   another order (ops', any permutation, any number of operators) permutes the entries of every row of mps_ijkl in
+   the same way and changes nothing else - for the specification and, under the hypotheses of
+   T19_multi_couplings_exact, for the rows returned by the model of possible_multi_couplings (same representative
+   for infinite MPS, since the minimum of a row does not depend on the order). *)
+Theorem T19_multi_couplings_operator_order : forall lat, wf lat -> forall ops ijkl ops' ijkl',
+  length ops = length ijkl -> length ops' = length ijkl' ->
+  Permutation (combine ops ijkl) (combine ops' ijkl') ->
+  (multi_coupled lat ops ijkl <-> multi_coupled lat ops' ijkl') /\
+  (ops_wf lat ops -> ops_wf lat ops' ->
+   (open0 lat = true -> Forall (fun s => s = 0) (shiftr lat)) ->
+   (In ijkl (multi_ijkl lat ops) <-> In ijkl' (multi_ijkl lat ops'))).
+Proof. exact multi_operator_order. Qed.
 
 (* ---- non-vacuity and documented examples ---- *)
 
@@ -287,6 +301,16 @@ Example T19_example_two_ops :
   multi_ijkl ex_irregular [(0, [0], 1); (1, [0], 0)] = [[2; 5]; [4; 7]; [8; 11]; [10; 13]].
 Proof. vm_compute. split; reflexivity. Qed.
 
+(* ex_ops of T19_example_multi listed in another order: the same rows with the columns permuted *)
+Example T19_example_operator_order :
+  multi_ijkl ex_honey [(1, [0], 1); (-1, [1], 0); (0, [0], 0)] =
+    [[15; 1; 11]; [16; 2; 10]; [17; 0; 9]; [20; 10; 12]; [19; 9; 13]; [18; 11; 14]] /\
+  Permutation (combine ex_ops [11; 15; 1]) (combine [(1, [0], 1); (-1, [1], 0); (0, [0], 0)] [15; 1; 11]).
+Proof.
+  split; [vm_compute; reflexivity|]. cbn [combine ex_ops].
+  eapply perm_trans; [apply perm_swap|]. apply perm_skip. apply perm_swap.
+Qed.
+
 Print Assumptions T19_get_order_perm.
 Print Assumptions T19_get_order_priority_perm.
 Print Assumptions T19_index_inverse.
@@ -301,3 +325,4 @@ Print Assumptions T19_species_pairs.
 Print Assumptions T19_index_injective.
 Print Assumptions T19_couplings_reverse.
 Print Assumptions T19_two_operator_multi_coupling.
+Print Assumptions T19_multi_couplings_operator_order.
